@@ -122,6 +122,7 @@ func init() {
 				hc.between = []string{"none", "arrive", "sitout", "join-sitout", "rebuy", "leave-busted", "leave-live", "blind-break"}
 				hc.mid = []string{"none", "arrive", "sitout"}
 				hc.late = []string{"none", "arrive", "join-sitout", "leave-live", "rebuy"}
+				hc.retry = []string{"none", "join-sitout", "arrive", "rebuy"}
 				hc.finish = []string{"all", "none", "first"}
 			}
 			ss := append(histSuites("c08/", cfgs, bound, func(h *hist) []Monitor { return []Monitor{newMonC08(h, 1)} }), c08SchedSuites(tier)...)
@@ -130,8 +131,8 @@ func init() {
 	})
 	register(&Check{
 		ID: "C12", Level: "model_checking",
-		Rule:        "multi-hand histories with blind updates (raise, lower, ante on/off, to break, from break) placed between hands and at the first wager request of a hand, plus tables created on a break; the level in force at open is the last update applied before the open; for the whole hand the hand engine's ante/blinds, the published hand level and the posted blinds must equal it, a later update changes only the table level, the next hand uses it, a break opens no hand and pauses the table after the current one",
-		Assumptions: []string{"updates are applied at quiescent points (UpdateBlind racing the open itself is not explored here)"},
+		Rule:        "multi-hand histories with blind updates (raise, lower, ante on/off, to break, from break) placed between hands and at the first wager request of a hand, plus tables created on a break; the level in force at open is the last update applied before the open; for the whole hand the hand engine's ante/blinds, the published hand level and the posted blinds must equal it, a later update changes only the table level, the next hand uses it, a break opens no hand and pauses the table after the current one; default-rule and short-deck tables; plus schedule exploration of UpdateBlind racing the opening of a hand and an update made from inside the hand's own opened notification",
+		Assumptions: []string{"stacks 3..15; levels 1/2, +ante 1, dealer blind 2 (short deck)"},
 		Suites: func(tier string) []*Suite {
 			bound, hands := 3, 3
 			if tier == "thorough" {
@@ -147,6 +148,20 @@ func init() {
 				hc.opened = []string{"none", "blind-raise", "blind-ante", "blind-break"}
 				hc.lines = []string{"foldout", "checkdown"}
 				hc.decks = []string{"asc"}
+			}
+			// short-deck tables: ante + dealer blind, no small / big blind (the hand options are built on another path)
+			for _, seats := range []int{3, 4} {
+				tc := defaultCfg(seats)
+				tc.Rule = pt.CompetitionRule_ShortDeck
+				tc.Blind = pt.TableBlindState{Level: 1, Ante: 1, Dealer: 2, SB: 0, BB: 0}
+				tc.Deck = "plain"
+				var init []seatSpec
+				for i := 0; i < 3; i++ {
+					init = append(init, seatSpec{id: string(rune('a' + i)), seat: i, chips: []int64{9, 12, 15}[i], joined: true})
+				}
+				cfgs = append(cfgs, &histCfg{name: fmt.Sprintf("seats%d/short-deck/ante1-dealer2", seats), tcfg: tc, init: init, hands: hands,
+					lines: []string{"foldout"}, decks: []string{"plain"}, newStack: 5,
+					between: []string{"none", "blind-raise", "blind-ante", "blind-break", "blind-resume"}, mid: []string{"none", "blind-raise", "blind-ante"}})
 			}
 			return append(histSuites("c12/", cfgs, bound, func(h *hist) []Monitor { return []Monitor{newMonC12(h)} }), c12SchedSuites(tier)...)
 		},
